@@ -366,6 +366,8 @@ def parts(ctx):
         A(dict(name="arr-%s-d2" % nm, profile=(lambda i, e_: lambda e: P.arr_profile(e, i, e_))(i, e_), depth=2,
                shards=8, max_new=1, dom={INT: (0, 1, 2)},
                top_ops=(lambda o: o.name in ("select", "arreq", "arrite")) if q else None))
+    A(dict(name="mixed-d2", profile=lambda e: P.mixed_profile(e), depth=2, shards=32, max_new=1,
+           dom={INT: (-1, 0, 2), STRING: ("", "a", "12")}))
     A(dict(name="uf-d2", profile=P.uf_profile, depth=2, shards=8, dom={INT: (0, 1, 2)}, max_new=mx))
     A(dict(name="quant-d2", profile=P.quant_profile, depth=2, shards=16, dom={INT: (0, 1)}, max_new=1))
     A(dict(name="names-d2", profile=names_profile, depth=2, shards=16, dom={INT: (0, 1)}, max_new=1))
